@@ -43,6 +43,10 @@ def recipes(draw, mspec):
   rules = draw(R.rules_for(engine.op_out_names(mspec), engine.ops_present(mspec),
                            max_rules=3, cfg_pool=R.STATIC_CFGS * 2 + R.FLOAT_COMPUTE_CFGS,
                            allow_skip=False))
+  if draw(st.integers(0, 2)) == 0:
+    # handed over as a caller-owned list of dicts (as read from a recipe file,
+    # no_quantize entries without op_config) instead of by update calls
+    return {'kind': 'rules', 'rules': rules, 'via_load': True}
   return {'kind': 'rules', 'rules': rules}
 
 
@@ -111,13 +115,38 @@ def set_recipe(qt, recipe, check_arg=True):
       raise Violation('recipe_argument_mutated', 'load_quantization_recipe changed the list passed in')
     return None
   qt.load_quantization_recipe([])
+  if recipe.get('via_load'):
+    arg = []
+    for r in recipe['rules']:
+      try:
+        R.make_config(r['cfg'])
+      except ValueError:
+        continue
+      if r['algo'] == R.NOQ or r['cfg']['w'] is not None:
+        arg.append(R.rule_dict(r))
+    snap = copy.deepcopy(arg)
+    try:
+      qt.load_quantization_recipe(arg)
+    except ValueError:
+      qt.load_quantization_recipe([])
+      arg = snap = []
+    if check_arg and not deep_equal(arg, snap):
+      raise Violation('recipe_argument_mutated',
+                      'load_quantization_recipe changed the list passed in: %s -> %s' % (core.jdump(snap)[:300], core.jdump(arg)[:300]))
+    return len(arg)
   n = 0
   for r in recipe['rules']:
     try:
-      qt.update_quantization_recipe(r['regex'], r['op'], R.make_config(r['cfg']), r['algo'])
+      cfg = R.make_config(r['cfg'])
+      csnap = copy.deepcopy(cfg)
+      qt.update_quantization_recipe(r['regex'], r['op'], cfg, r['algo'])
       n += 1
     except ValueError:
+      continue
+    finally:
       pass
+    if check_arg and cfg != csnap:
+      raise Violation('config_argument_mutated', 'update_quantization_recipe changed the config passed in')
   return n
 
 
